@@ -774,6 +774,8 @@ func buildStack(stack []desc, unit time.Duration, rec *recorder) *builtStack {
 					if strIsFailure(hs, exec.LastResult(), exec.LastError()) {
 						return want
 					}
+					// user code (the delay function) is shown something else than the most recent completed attempt
+					rec.plain("DelayFnSawNonFailure", evLayer, "", nil)
 					return 0
 				})
 			}
